@@ -150,6 +150,12 @@ func OwnLayers(n *gen.Node) []Layer {
 		l.Hint, l.HasHint = h, true
 		l.Link = &[2]string{S[1], S[2]}
 		out = []Layer{l}
+	case "unimpld":
+		l := libL("issuelink", "unimplementedError")
+		l.Unimpl = true
+		l.Hint, l.HasHint = UnimplHint+Referral, true
+		l.Link = &[2]string{"", S[1]}
+		out = []Layer{l}
 	case "domnew":
 		out = []Layer{domainL(GenPkgDomain), goErrorString}
 	case "gstatus":
@@ -370,7 +376,7 @@ func Text(n *gen.Node) string {
 	case "newfwe":
 		return S[0] + " " + k(0) + " " + S[1] + " " + h(0)
 	case "goerr", "new", "pkgnew", "nofmtleaf", "fmtleaf", "unimpl", "domnew", "gstatus",
-		"oldfmtleaf", "fmtrleaf", "ncleaf", "isleaf", "lowleaf", "asleaf", "elidewrap", "handledmsg":
+		"oldfmtleaf", "fmtrleaf", "ncleaf", "isleaf", "lowleaf", "asleaf", "elidewrap", "handledmsg", "unimpld":
 		return S[0]
 	case "newf":
 		return S[1] + " " + S[0] + " " + S[2]
